@@ -75,6 +75,15 @@ Fixpoint fail_complete (lim : limits) (o : oracle) (s : pst) (segs : list bytes)
 Lemma lift_not_ok lo s a r : not_ok r -> lift lo (s, a, r) = (s, a, r).
 Proof. intro H. destruct r; try reflexivity. now elim (H unconsumed). Qed.
 
+Lemma consumed_prefix lim o : forall segs s a, exists more, concat segs = concat (consumed lim o s segs a) ++ more.
+Proof.
+  induction segs as [|d segs IH]; intros s a; [exists []; reflexivity|].
+  rewrite consumed_cons. destruct (feed lim o s d a) as [[s' a'] r]. destruct r.
+  - destruct (IH s' a') as [more Hm]. exists more. cbn [concat]. rewrite Hm at 1. now rewrite app_assoc.
+  - exists (concat segs). cbn [concat]. now rewrite app_nil_r.
+  - exists (concat segs). cbn [concat]. now rewrite app_nil_r.
+Qed.
+
 Lemma seg_reject_cons : forall segs lim o s d acc lo s1 acc1 r1,
   wf s -> boundaries_ok lim o s (d :: segs) acc = true ->
   run_segs lim o s (d :: segs) acc lo = (s1, acc1, r1) -> not_ok r1 ->
@@ -90,7 +99,10 @@ Proof.
       pose proof (feed_wf _ _ _ _ _ _ _ _ Hw E1) as Hw1.
       specialize (IH lim o s' e a' (lo ++ l1) s1 acc1 r1 Hw1 Hb H Hr Hc).
       rewrite <- IH. cbn [concat]. rewrite !run_segs_single. rewrite <- lift_lift.
-      apply obs_lift. exact (feed_split lim o s d (e ++ concat segs) acc s' a' l1 Hw E1 Hok).
+      apply obs_lift. destruct (consumed_prefix lim o (e :: segs) s' a') as [more Hm].
+      assert (Hok' : line_end_ok lim s' (e ++ concat segs) = true).
+      { change (e ++ concat segs) with (concat (e :: segs)). rewrite Hm. apply line_end_ok_app. exact Hok. }
+      exact (feed_split_weak lim o s d (e ++ concat segs) acc s' a' l1 Hw E1 Hok').
     + inversion H; subst. rewrite run_segs_single.
       rewrite (feed_fail_app _ _ _ _ _ _ _ _ Hw E1 Hr Hc). now rewrite lift_not_ok.
     + inversion H; subst. rewrite run_segs_single.
